@@ -139,7 +139,11 @@ void eb_norm_sim(eb_t *r, const eb_t *t, int n) {
 		}
 #if EB_ADD == PROJC || !defined(STRIP)
 		for (int i = 0; i < n; i++) {
-			eb_norm_imp(r[i], r[i], 1);
+			if (eb_is_infty(t[i])) {
+				eb_set_infty(r[i]);
+			} else {
+				eb_norm_imp(r[i], r[i], 1);
+			}
 		}
 #endif /* EB_ADD == PROJC */
 	}
